@@ -1,3 +1,5 @@
 import Audit.Tool
 import Adb.Props.C12
+import Adb.Props.TypeTable
 #audit_module Adb.Props.C12
+#audit_module Adb.Props.TypeTable
